@@ -16,6 +16,7 @@ package engine
 
 import (
 	"bytes"
+	"slices"
 
 	"github.com/openGemini/openGemini/engine/comm"
 	"github.com/openGemini/openGemini/engine/executor"
@@ -227,6 +228,10 @@ func (r *recordIter) readMemTableMetaRecord(ops []*comm.CallOption) {
 	}
 
 	timeCol := r.record.TimeColumn()
+	// The column scans below record the first row as the first value and the last row as the
+	// last one. The rows of a descending query arrive newest first: the two are exchanged.
+	descending := r.record.RowNums() > 1 && r.record.Time(0) > r.record.Time(r.record.RowNums()-1)
+	var exchanged []int
 
 	for _, call := range ops {
 		if r.record == nil {
@@ -248,6 +253,13 @@ func (r *recordIter) readMemTableMetaRecord(ops []*comm.CallOption) {
 			r.setBoolColumnMeta(timeCol, idx, r.record, ops)
 		default:
 			return
+		}
+		if descending && r.record != nil && !slices.Contains(exchanged, idx) {
+			exchanged = append(exchanged, idx)
+			first, firstTime := r.record.ColMeta[idx].First()
+			last, lastTime := r.record.ColMeta[idx].Last()
+			r.record.ColMeta[idx].SetFirst(last, lastTime)
+			r.record.ColMeta[idx].SetLast(first, firstTime)
 		}
 	}
 }
